@@ -13,16 +13,24 @@ import (
 	"errors"
 	"fmt"
 	"io"
+	"net/http"
+	"net/http/httptest"
+	"net/url"
 	"os"
 	"sort"
 	"strconv"
+	"strings"
 	"sync"
 	"testing"
 	"time"
 
+	"github.com/cenkalti/backoff"
+	"github.com/uber-go/tally"
 	"go.uber.org/zap"
 
+	"github.com/uber/kraken/build-index/tagclient"
 	"github.com/uber/kraken/core"
+	"github.com/uber/kraken/lib/persistedretry/tagreplication"
 	"github.com/uber/kraken/origin/blobclient"
 	"github.com/uber/kraken/utils/httputil"
 	"github.com/uber/kraken/utils/log"
@@ -35,6 +43,10 @@ type c33oRemote struct {
 	mu    sync.Mutex
 	down  bool
 	blobs map[string]bool
+	// gate: uploads park (hit) until released with an outcome
+	gated bool
+	hit   chan struct{}
+	rel   chan bool
 }
 
 func (r *c33oRemote) UploadBlob(ctx context.Context, namespace string, d core.Digest, blob io.ReadSeeker, size uint64) error {
@@ -43,8 +55,18 @@ func (r *c33oRemote) UploadBlob(ctx context.Context, namespace string, d core.Di
 		return err
 	}
 	r.mu.Lock()
+	gated := r.gated
+	r.mu.Unlock()
+	if gated {
+		// the upload is streaming to the remote origin: parked until the harness decides how it ends
+		r.hit <- struct{}{}
+		if ok := <-r.rel; !ok {
+			return errors.New("upload to the remote origin failed")
+		}
+	}
+	r.mu.Lock()
 	defer r.mu.Unlock()
-	if r.down {
+	if r.down && !gated {
 		return errors.New("remote cluster unreachable")
 	}
 	if uint64(len(c)) != size {
@@ -62,8 +84,41 @@ func c33oRun(base string, tr *verifh.T, c verifh.Case) {
 		panic(err)
 	}
 	defer os.RemoveAll(dir)
-	remote := &c33oRemote{blobs: map[string]bool{}}
+	remote := &c33oRemote{blobs: map[string]bool{}, hit: make(chan struct{}, 16), rel: make(chan bool)}
 	s := &c31Sess{tr: tr, dir: dir, cluster: remote}
+	// the remote build-index: records, for every tag it is asked to store, whether the remote origin
+	// cluster holds the tag's blob at that moment
+	var tagsMu sync.Mutex
+	var tags []string
+	tagBlob := map[string]int{}
+	index := httptest.NewServer(http.HandlerFunc(func(rw http.ResponseWriter, r *http.Request) {
+		p := strings.Split(strings.Trim(r.URL.EscapedPath(), "/"), "/")
+		switch {
+		case r.Method == "HEAD" && len(p) == 2 && p[0] == "tags":
+			rw.WriteHeader(404)
+		case r.Method == "GET" && r.URL.Path == "/origin":
+			fmt.Fprint(rw, "remote")
+		case r.Method == "PUT" && len(p) == 4 && p[0] == "tags" && p[2] == "digest":
+			tag, _ := url.PathUnescape(p[1])
+			tagsMu.Lock()
+			b := tagBlob[tag]
+			remote.mu.Lock()
+			has := remote.blobs[c31BlobTab[b].digest.Hex()]
+			remote.mu.Unlock()
+			tags = append(tags, fmt.Sprintf("%s:b%d:%s", tag, b, verifh.Bool(has)))
+			tagsMu.Unlock()
+			rw.WriteHeader(200)
+		default:
+			rw.WriteHeader(400)
+		}
+	}))
+	index.Config.SetKeepAlivesEnabled(false)
+	defer index.Close()
+	type parkedExec struct {
+		tag string
+		res chan error
+	}
+	var parked []parkedExec
 	for i := range s.backends {
 		s.backends[i] = &c31Backend{blobs: map[string][]byte{}}
 	}
@@ -87,7 +142,25 @@ func c33oRun(base string, tr *verifh.T, c verifh.Case) {
 		remote.mu.Unlock()
 		sort.Strings(cached)
 		sort.Strings(rem)
-		return []string{"c=" + verifh.List(cached), "r=" + verifh.List(rem)}
+		tagsMu.Lock()
+		tl := verifh.SortedList(append([]string(nil), tags...)) // concurrent executions: arrival order is not fixed
+		tagsMu.Unlock()
+		var pk []string
+		for _, p := range parked {
+			pk = append(pk, p.tag)
+		}
+		return []string{"c=" + verifh.List(cached), "r=" + verifh.List(rem), "tags=" + tl, "p=" + verifh.List(pk)}
+	}
+	blobclient.VerifPollBackOff = func() backoff.BackOff { return &backoff.StopBackOff{} }
+	newExec := func() *tagreplication.Executor {
+		return tagreplication.NewExecutor(tally.NoopScope,
+			blobclient.NewClusterClient(c33oResolver{[]blobclient.Client{blobclient.New(s.addr)}}), tagclient.NewProvider(nil))
+	}
+	errTok := func(err error) string {
+		if err != nil {
+			return "err"
+		}
+		return "ok"
 	}
 	for _, op := range c.Ops {
 		if len(op) < 2 || op[0] != "op" {
@@ -101,6 +174,10 @@ func c33oRun(base string, tr *verifh.T, c verifh.Case) {
 				continue
 			}
 			blob := c31BlobTab[b]
+			if op[1] == "rep" && len(parked) > 0 {
+				obs = []string{"busy"}
+				break
+			}
 			switch op[1] {
 			case "fetch":
 				obs = s.do(op)
@@ -134,6 +211,83 @@ func c33oRun(base string, tr *verifh.T, c verifh.Case) {
 					obs = []string{"err"}
 				}
 			}
+		case (op[1] == "exec" || op[1] == "execb") && len(op) == 4 && (op[2] == "tA" || op[2] == "tB" || op[2] == "tC"):
+			// the real tagreplication executor on a task (tag, one dependency b) against this origin and the
+			// recording remote build-index; execb: the upload to the remote origin parks at the gate
+			b, ok := c31ParseBlob(op[3])
+			if !ok {
+				continue
+			}
+			blob := c31BlobTab[b]
+			if _, err := s.cas.GetCacheFileStat(blob.digest.Hex()); err != nil {
+				obs = []string{"uncached"}
+				break
+			}
+			if op[1] == "exec" && len(parked) > 0 {
+				obs = []string{"busy"}
+				break
+			}
+			dup := false
+			for _, p := range parked {
+				dup = dup || p.tag == op[2]
+			}
+			if dup {
+				obs = []string{"busy"}
+				break
+			}
+			tagsMu.Lock()
+			tagBlob[op[2]] = b
+			tagsMu.Unlock()
+			task := tagreplication.NewTask(op[2], c31BlobTab[(b+1)%len(c31BlobTab)].digest, core.DigestList{blob.digest}, strings.TrimPrefix(index.URL, "http://"), 0)
+			ex := newExec()
+			if op[1] == "exec" {
+				obs = []string{errTok(ex.Exec(task))}
+				break
+			}
+			remote.mu.Lock()
+			remote.gated = true
+			remote.mu.Unlock()
+			res := make(chan error, 1)
+			go func() { res <- ex.Exec(task) }()
+			select {
+			case <-remote.hit:
+				parked = append(parked, parkedExec{op[2], res})
+				obs = []string{"paused"}
+			case err := <-res:
+				obs = []string{errTok(err)}
+			case <-time.After(verifretry.Timeout):
+				tr.PropFail("stuck-exec", "Exec_neither_returned_nor_reached_the_remote_upload")
+				obs = []string{"err"}
+			}
+			if len(parked) == 0 {
+				remote.mu.Lock()
+				remote.gated = false
+				remote.mu.Unlock()
+			}
+		case op[1] == "grel" && len(op) == 3 && (op[2] == "ok" || op[2] == "fail"):
+			// the parked uploads end (all the same way), oldest first; the executions go on to the end
+			var rs []string
+			for range parked {
+				select {
+				case remote.rel <- op[2] == "ok":
+				case <-time.After(verifretry.Timeout):
+					tr.PropFail("stuck-exec", "a_parked_upload_is_gone")
+				}
+			}
+			for _, p := range parked {
+				select {
+				case err := <-p.res:
+					rs = append(rs, p.tag+":"+errTok(err))
+				case <-time.After(verifretry.Timeout):
+					tr.PropFail("stuck-exec", "Exec_did_not_return_after_the_upload_ended")
+					rs = append(rs, p.tag+":err")
+				}
+			}
+			parked = nil
+			remote.mu.Lock()
+			remote.gated = false
+			remote.mu.Unlock()
+			obs = []string{"res=" + verifh.List(rs)}
 		case (op[1] == "rdown" || op[1] == "rup") && len(op) == 2:
 			remote.mu.Lock()
 			remote.down = op[1] == "rdown"
@@ -144,7 +298,36 @@ func c33oRun(base string, tr *verifh.T, c verifh.Case) {
 			tr.Op(op[1:], append(obs, dump()...)...)
 		}
 	}
+	for range parked {
+		select {
+		case remote.rel <- false:
+		case <-time.After(verifretry.Timeout):
+		}
+	}
+	for _, p := range parked {
+		select {
+		case <-p.res:
+		case <-time.After(verifretry.Timeout):
+		}
+	}
+	// an upload that parked without the harness expecting it (no execution waits for it)
+	for {
+		select {
+		case <-remote.hit:
+			select {
+			case remote.rel <- false:
+			case <-time.After(time.Second):
+			}
+			continue
+		default:
+		}
+		break
+	}
 }
+
+type c33oResolver struct{ clients []blobclient.Client }
+
+func (r c33oResolver) Resolve(d core.Digest) ([]blobclient.Client, error) { return r.clients, nil }
 
 func TestVerif_C33Origin(t *testing.T) {
 	log.SetGlobalLogger(zap.NewNop().Sugar())
@@ -171,6 +354,25 @@ func TestVerif_C33Origin(t *testing.T) {
 	for _, b := range []string{"b0", "b1"} {
 		alpha = append(alpha, []string{"op", "fetch", b}, []string{"op", "seed", b}, []string{"op", "rep", b})
 	}
+	// concurrent replication of tags that share a blob: executions whose upload to the remote origin parks
+	alphaX := append(append([][]string{}, alpha...), []string{"op", "grel", "ok"}, []string{"op", "grel", "fail"})
+	for _, t := range []string{"tA", "tB"} {
+		alphaX = append(alphaX, []string{"op", "execb", t, "b0"}, []string{"op", "exec", t, "b0"})
+	}
+	for _, pre := range [][][]string{
+		{{"op", "fetch", "b0"}, {"op", "execb", "tA", "b0"}},
+		{{"op", "fetch", "b0"}, {"op", "execb", "tA", "b0"}, {"op", "execb", "tB", "b0"}},
+	} {
+		for _, a := range alphaX {
+			for _, b := range alphaX {
+				if len(pre) == 3 && !(verifh.Thorough() || a[1] == "grel" || b[1] == "grel") {
+					continue
+				}
+				c33oRun(base, tr, verifh.Case{Ops: append(append([][]string{}, pre...), a, b)})
+				tr.Count("overlap_cases", 1)
+			}
+		}
+	}
 	var rec func(prefix [][]string, d int)
 	rec = func(prefix [][]string, d int) {
 		if d == 0 {
@@ -188,8 +390,12 @@ func TestVerif_C33Origin(t *testing.T) {
 	r := verifh.NewRand(verifh.Seed(), "c33o")
 	for i := 0; i < verifh.Scale(200, 3000); i++ {
 		var ops [][]string
+		pool := alpha
+		if i%3 == 0 {
+			pool = alphaX
+		}
 		for j := 3 + r.Intn(8); j > 0; j-- {
-			ops = append(ops, alpha[r.Intn(len(alpha))])
+			ops = append(ops, pool[r.Intn(len(pool))])
 		}
 		if i < 2 {
 			tr.Sample(fmt.Sprint(ops))
